@@ -147,11 +147,21 @@ func runC08(c *Ctx) {
 		c.check(okP, "label-paths.parser", "pkg/model.GetArchivePathComponents:labels", "-", "the parser reads Repo@1, LabelName@2, file@3 in the labels clause", "the parser's labels clause no longer reads Repo@1 / LabelName@2 / file@3: listed label names differ from the names that were set")
 		pf := p.Func("pkg/model.GetArchivePathPrefixToLabels")
 		pts, why3 := evalBuilder(p, pf)
-		if why3 != "" || len(pts) != 1 {
+		if why3 != "" || len(pts) == 0 {
 			undecided("label prefix builder cannot be evaluated (%s)", why3)
 		}
-		noPrefix := pts[0].instantiate(map[int]string{0: "exp", 1: ""})
-		withPrefix := pts[0].instantiate(map[int]string{0: "exp", 1: "v1"})
+		noPrefix, okNP := instNoOpt(pts, map[int]string{0: "exp"})
+		if !okNP {
+			undecided("label prefix builder evaluates to %d templates", len(pts))
+		}
+		withPrefix := ""
+		for _, t := range pts {
+			for _, part := range t {
+				if part.slot >= 0 && part.opt {
+					withPrefix = t.instantiate(map[int]string{0: "exp", 1: "v1"})
+				}
+			}
+		}
 		c.check(noPrefix == "labels/exp/" && withPrefix == "labels/exp/v1", "label-paths.prefix", pf.ID, p.Pos(pf.Decl.Pos()),
 			"listing prefix is labels/{repo}/ (+ optional name prefix)", "the label listing prefix evaluates to `"+noPrefix+"` / `"+withPrefix+"` instead of labels/exp/ and labels/exp/v1: labels of repositories whose names share a prefix are mixed up")
 		// the listing uses it on the label store
